@@ -470,4 +470,78 @@ func init() {
 				c.Dom("hb-only-established", sc, CmpCond(token.EQL, IsCallOf(e.getState), IsConstInt(ev)), "state == established")
 			}
 		}})
+
+	register(&Rule{ID: "C19.R8", Props: []string{"C19", "C02", "C09"}, Engine: "E3-sibling",
+		Title:   "timer expiry accounting (rtxTimer and ackTimer agree): the pending-callback counter is incremented exactly when the Go timer is (re)armed, decremented by the callback itself, and decremented by stop/close only when timer.Stop() reports that the callback will not run",
+		MinInst: 10,
+		Run: func(c *RuleCtx) {
+			for _, tn := range []string{"rtxTimer", "ackTimer"} {
+				pend := c.field(tn, "pending")
+				for _, mn := range []string{"stop", "close"} {
+					fn := c.Fn(tn + "." + mn)
+					n := 0
+					for _, a := range c.storesIn(fn, pend) {
+						n++
+						okDec := BinV(token.SUB, IsLoadOf(pend), IsConstInt(1))(a.Val)
+						okG := DominatedByExt(a.Instr, func(v ssa.Value, t bool) bool {
+							call, ok := v.(*ssa.Call)
+							if !ok || !t {
+								return false
+							}
+							sc := call.Call.StaticCallee()
+							return sc != nil && sc.Name() == "Stop" && sc.Pkg != nil && sc.Pkg.Pkg.Path() == "time"
+						})
+						c.Check(okDec && okG, fmt.Sprintf("pending-dec-needs-Stop-true:%s.%s", tn, mn), c.Pos(a.Instr), "pending-- only when timer.Stop() returned true",
+							"pending is decremented even when timer.Stop() returned false (the expired callback is already on its way and will decrement again: the uint8 counter wraps and every later expiry is discarded, so the timer never fires again)")
+					}
+					c.Check(n == 1, fmt.Sprintf("pending-dec-site:%s.%s", tn, mn), c.P.Pos(fn.Pos()), "one decrement site", fmt.Sprintf("%d stores to pending", n))
+				}
+				// callback: exactly one unconditional decrement at entry; re-arm increments
+				to := c.Fn(tn + ".timeout")
+				decs, incs := 0, 0
+				for _, a := range c.storesIn(to, pend) {
+					if BinV(token.SUB, IsLoadOf(pend), IsConstInt(1))(a.Val) {
+						decs++
+						c.Check(len(DomFacts(a.Instr.Block())) == 0, "callback-dec-unconditional:"+tn, c.Pos(a.Instr), "the callback always consumes one pending count", "the callback's decrement is conditional")
+					} else if BinV(token.ADD, IsLoadOf(pend), IsConstInt(1))(a.Val) {
+						incs++
+					}
+				}
+				c.Check(decs == 1, "callback-dec:"+tn, c.P.Pos(to.Pos()), "one decrement in the expiry callback", fmt.Sprintf("%d decrements", decs))
+				// every Reset is paired with pending++ in the same block
+				for _, fname := range []string{tn + ".timeout", tn + ".start"} {
+					fn := c.Fn(fname)
+					forEachInstr(fn, func(in ssa.Instruction) {
+						ci, ok := in.(ssa.CallInstruction)
+						if !ok {
+							return
+						}
+						sc := ci.Common().StaticCallee()
+						if sc == nil || sc.Name() != "Reset" {
+							return
+						}
+						paired := false
+						for _, a := range c.storesIn(fn, pend) {
+							if a.Instr.Block() == in.Block() && BinV(token.ADD, IsLoadOf(pend), IsConstInt(1))(a.Val) {
+								paired = true
+							}
+						}
+						c.Check(paired, "arm-increments-pending:"+fname, c.Pos(in), "timer.Reset is paired with pending++", "timer armed without counting the pending callback")
+					})
+				}
+				// the callback acts only when it is the last pending one and the timer is still started
+				stf := c.field(tn, "state")
+				forEachInstr(to, func(in ssa.Instruction) {
+					d, ok := in.(*ssa.Defer)
+					if !ok || !d.Call.IsInvoke() {
+						return
+					}
+					c.Dom("callback-acts-if-last:"+tn+"."+d.Call.Method.Name(), d, CmpCond(token.EQL, IsLoadOf(pend), IsConstInt(0)), "pending == 0")
+					c.Dom("callback-acts-if-started:"+tn+"."+d.Call.Method.Name(), d, func(v ssa.Value, t bool) bool {
+						b, ok := v.(*ssa.BinOp)
+						return ok && b.Op == token.EQL && t && IsLoadOf(stf)(b.X)
+					}, "state == started")
+				})
+			}
+		}})
 }
